@@ -123,7 +123,11 @@ fn one_case(seed: u64, i: u64) -> CaseOut {
     let mut out = CaseOut::new();
     let mut rng = Rng::for_case(seed, "C09", i);
     let stack = rng.bool();
-    let origin = if rng.bool() { Some(gen_origin(&mut rng).clamp(1, 0xF000)) } else { None };
+    let origin = match rng.below(6) {
+        0 => Some(0x7FF6 + rng.below(10) as i32), // image and PC-relative arguments straddle 0x8000
+        1 | 2 => None,
+        _ => Some(gen_origin(&mut rng).clamp(1, 0xF000)),
+    };
     let o = ProgOpts {
         stack,
         origin,
@@ -159,8 +163,19 @@ fn one_case(seed: u64, i: u64) -> CaseOut {
         lines.push(rng.s(&["quit", "q", "QUIT"]).to_string());
         // anything after quit is never read by the debugger
     }
-    let sep = if rng.chance(1, 3) { ";" } else { "\n" };
-    let script = lines.join(sep);
+    let sep = *rng.pick(&[";", "\n", "\n", "mix"]);
+    let script = if sep == "mix" {
+        let mut s = String::new();
+        for (k, l) in lines.iter().enumerate() {
+            if k > 0 {
+                s.push(if rng.chance(1, 3) { ';' } else { '\n' });
+            }
+            s.push_str(l);
+        }
+        s
+    } else {
+        lines.join(sep)
+    };
 
     let Some(plain) = plain_run(&text, stack, &built.input) else {
         out.inconclusive = Some("plain run could not be set up".into());
